@@ -784,3 +784,23 @@ func (fr *Frame) requireOwned(p string, what string, pos token.Pos, st *State) {
 	vc := fr.vc
 	vc.oblige("ownership", fr.ownTags(), fr.curReach, fmt.Sprintf("(select %s %s)", vc.get(st, vc.ownedComp()), p), "pooled object is owned (not used after Put): "+what, pos, nil)
 }
+
+// strconv.AppendInt(dst, v, 10): appends the decimal representation dec_arr(v) of length dec_len(v).
+func init() {
+	nativeCalls["strconv.AppendInt"] = &nativeCall{exec: func(fr *Frame, cc *ssa.CallCommon, st *State, pos token.Pos) []Term {
+		vc := fr.vc
+		vc.callees["strconv.AppendInt (decimal digits; trusted)"] = true
+		dst := fr.val(cc.Args[0])
+		v := fr.val(cc.Args[1])
+		if c, ok := constInt(cc.Args[2]); !ok || c.Int64() != 10 {
+			vc.unsupportedf("strconv.AppendInt with a base other than 10")
+		}
+		et := types.Typ[types.Uint8]
+		res := fr.appendModel(dst.S, et, fmt.Sprintf("(dec_arr %s)", v.S), "0", fmt.Sprintf("(dec_len %s)", v.S), st)
+		n := vc.fresh("appint")
+		vc.define(n, "Slice", res)
+		return []Term{{n, "Slice", cc.Args[0].Type()}}
+	}, modifies: func(fr *Frame, cc *ssa.CallCommon) []string {
+		return []string{fr.vc.arrComp(types.Typ[types.Uint8]), "$alloc"}
+	}, doc: "strconv.AppendInt base 10"}
+}
